@@ -61,6 +61,11 @@ CHECKS = {
         text="Exploration: generated strings, integers, floats and token layouts are written in every supported spelling and must lex/parse back to exactly the same value / position. Round-trip and position oracles need no model of the lexer. Bounded by case counts; absence is not established.",
         note="Trusted: the harness writer (spellings, whitespace) and its position counter; rapid; strconv for shortest float formatting.",
         ref="4/C12"),
+    "C13": dict(
+        technique="property-based testing (rapid): fault injection at known positions (typing faults from C03's templates, stray/extra tokens) and run-time failures located by the independent reference evaluator; the printer's own line/column bookkeeping is the oracle for the expected anchor; general well-formedness predicate on every located error",
+        text="Exploration: (compile) one typing fault injected at a drawn position of a generated program printed over several lines with arbitrary whitespace, CRLF and multi-byte string literals must be reported at the anchor of the faulty occurrence; (syntax) one stray operator / extra operand / extra `)` must be reported at that token; (runtime) generated programs failing on the generated value (index, division by zero, nil receiver, panicking environment function, bad pattern, budget, and - compiled without Env - a missing name) must be reported at the anchor of the node where the reference evaluator fails, optimiser on and off. Every located error must lie inside the source and its snippet must be the named line with the indicator at the named column.",
+        note="Trusted: the anchor convention (operator token, `[`, member/function name, first character) read off the existing expectations; the printer's position counting (validated against the lexer by C12); the reference evaluator for the failing node. Lexical errors are held to the general clauses only (they report the scan cursor, pinned by TestLex_error).",
+        ref="4/C13"),
     "C14": dict(
         technique="bounded exhaustive enumeration (12x12 kinds x 13 operators x boundary grid x 5 modes) + rapid random values against independent reflect.Convert/wide-arithmetic oracle and checker-predicted kind",
         text="Exploration, exhaustive over the stated finite grid: every ordered pair of numeric kinds x every operator x every pair of boundary values, in map-env, struct-env, untyped and literal-operand modes, then random full-range values; result must be Exact (kind and value, NaN-aware) and of the kind checker.Check predicts; integer division by zero must fail.",
